@@ -34,6 +34,7 @@ func runC03(c *Ctx) {
 	c.Rule("C03.R6", "every acting phase re-checks through processError", 10)
 	c.Rule("C03.R7", "wake-up token: confined one-slot channel, non-blocking send, drained before every re-entry of the phase machine", 5)
 	c.Rule("C03.R8", "the retry-in-preparation flag is consumed where the retry decision is taken; single setter", 2)
+	c.Rule("C03.R10", "response-started is raised only where the response headers are written to the client", 1)
 	c.NotDecided = append(c.NotDecided, "bounded completion time itself (liveness)", "that cleanStream is eventually reached for every request", "behaviour under concrete interleavings")
 	c.Assumptions = append(c.Assumptions, "sync/atomic semantics", "utils.Timer fires its callback at most once after Stop returns false")
 
@@ -434,6 +435,7 @@ func runC03(c *Ctx) {
 	c03Notify(c, pkg)
 	c03RetryFlag(c, pkg)
 	c03WinnerProduces(c, pkg)
+	c03StartedMeansWritten(c, pkg)
 }
 
 // c03Notify (R7): the wake-up token of the phase machine.
@@ -756,5 +758,44 @@ func c03WinnerProduces(c *Ctx, pkg string) {
 	}
 	if n < 3 {
 		c.Unresolved("C03.R2", fmt.Sprintf("CAS(0,1) sites on upstreamResponseReceived (found %d)", n))
+	}
+}
+
+// c03StartedMeansWritten (R10): "response started" is raised only where the response is written to the client.
+// downstreamResponseStarted switches every failure path of the request from "answer with an error reply" to "the
+// client already has part of a response: reset its stream" (onUpstreamReset) and makes the per try timeout a no-op
+// (onPerReqTimeout). Clause: every store of true to the flag is followed, on every path to the function's return, by
+// the downstream header write (appendHeaders); a function that raises it without writing (e.g. when an upstream
+// response is merely accepted, before the retry decision) leaves a request whose later failure is answered by nothing.
+func c03StartedMeansWritten(c *Ctx, pkg string) {
+	n := 0
+	isWrite := func(in ssa.Instruction) bool {
+		ci, ok := in.(ssa.CallInstruction)
+		if !ok {
+			return false
+		}
+		if _, isGo := in.(*ssa.Go); isGo {
+			return false
+		}
+		if _, isDefer := in.(*ssa.Defer); isDefer {
+			return false
+		}
+		m := methodName(ci.Common())
+		return m == "appendHeaders" || m == "AppendHeaders"
+	}
+	for _, fn := range c.PkgFuncs(pkg) {
+		ord := 0
+		for _, st := range storesToField(fn, ".downStream", "downstreamResponseStarted", false) {
+			if b, ok := constBool(st.Val); ok && !b {
+				continue
+			}
+			n++
+			ord++
+			bad := existsPath(st.Parent(), st, isReturn, isWrite)
+			c.Check("C03.R10", fmt.Sprintf("%s:started-means-written#%d", funcKey(fn), ord), st.Pos(), bad == nil, "the store is followed on every path by the header write to the client", "downstreamResponseStarted is raised on a path that returns without writing the response headers to the client: a later reset or timeout of this request resets the client's stream (or is skipped) instead of producing the error reply")
+		}
+	}
+	if n < 1 {
+		c.Unresolved("C03.R10", "store of true to downStream.downstreamResponseStarted")
 	}
 }
